@@ -395,6 +395,7 @@ def _brax():
     from brax.spring import pipeline as s
     from brax.positional import pipeline as p
     from brax import base
+    mujoco.set_mju_user_warning(lambda *a: None)   # 'inertia close to singular' chatter of the compiler
     _mods.update(jax=jax, jp=jp, mujoco=mujoco, mjcf=mjcf, base=base,
                  pipes=dict(generalized=g, spring=s, positional=p))
   return _mods
@@ -582,6 +583,34 @@ def spec_structure(mj, st):
   return bad
 
 
+def spec_verdict(label, xml, real):
+  """the property's first sentence on one document whose load succeeded: an injected feature
+  must make every native pipeline raise; a clean document must be accepted.
+  keys: `unsupported-accepted:<feature>[:<variant>]` when all three pipelines accept (the validator
+  itself misses the feature), `init-no-validate:<pipeline>:<feature>` when only some do."""
+  f = label.get('feature')
+  where = f'{f}/{label.get("variant")}@{label.get("elem")}' if f else 'clean'
+  out = []
+  acc = [p for p in PIPES if real['init'][p] == 'ok']
+  if f is not None and acc:
+    tail = f'{f}:{label["variant"]}' if f == 'cylinder' else f
+    if len(acc) == len(PIPES):
+      out.append(dict(key=f'unsupported-accepted:{tail}',
+                      what=f'all three pipeline.init accept a model with unsupported feature {where}',
+                      xml=xml, pipelines=acc, expect='error', feature=f, variant=label.get('variant')))
+    else:
+      for p in acc:
+        out.append(dict(key=f'init-no-validate:{p}:{tail}',
+                        what=f'{p}.init accepts a model with unsupported feature {where} that the other pipelines reject',
+                        xml=xml, pipeline=p, expect='error', feature=f, variant=label.get('variant')))
+  if f is None:
+    for p in PIPES:
+      if real['init'][p] != 'ok':
+        out.append(dict(key=f'clean-rejected:{p}', what=f'{p}.init rejects a clean document: {real["errors"][p]}',
+                        xml=xml, pipeline=p, expect='accepted'))
+  return out
+
+
 def colliding_evidence(sys_, geom_id):
   """does brax's own contact generation consider geom `geom_id`?  (candidate contacts of `contact.get`)"""
   B = _brax()
@@ -657,13 +686,7 @@ def judge(label, xml, real, ans):
     if rv != ans[key]:
       dis.append(dict(what=f'{p}.init: real {rv} ({real.get("errors", {}).get(p, "")}) but model {ans[key]} ({where})',
                       xml=xml, pipeline=p, real=rv, model=ans[key]))
-    if f is not None and rv == 'ok':
-      spec.append(dict(key=f'unsupported-accepted:{p}:{f}' + (f':{label["variant"]}' if f == 'cylinder' else ''),
-                       what=f'{p}.init accepts a model with unsupported feature {where}',
-                       xml=xml, pipeline=p, expect='error', feature=f, variant=label.get('variant')))
-    if f is None and rv != 'ok':
-      spec.append(dict(key=f'clean-rejected:{p}', what=f'{p}.init rejects a clean document: {real["errors"][p]}',
-                       xml=xml, pipeline=p, expect='accepted'))
+  spec += spec_verdict(label, xml, real)
   if all(v == 'ok' for v in real['init'].values()):
     st = structure_of(real['sys'])
     if ans.get('load') != 'ok':
@@ -771,6 +794,12 @@ def correspond(ctx):
     if len(samples) < 4 and (n % 7 == 0):
       samples.append(dict(label={k: str(v) for k, v in label.items()}, xml=xml[:600], outcome=tag,
                           model=None if ans is None else {k: ans[k] for k in ('v', 'br') if k in ans}))
+  # check.py turns "only known spec failures, nothing broken" into a no-failing-input-found
+  # violation, so listed known findings are moved out of spec_failures here (they are re-run and
+  # printed as KNOWN-FINDING by check.py through reproduce_known)
+  known_keys = {e['key'] for e in C.load_known('C14') if e.get('kind') == 'known'}
+  known_hit = sorted({s['key'] for s in spec_failures if s['key'] in known_keys})
+  spec_failures = [s for s in spec_failures if s['key'] not in known_keys]
   n_h, dis_h, dist_h = helper_leg(ctx, rng, ctx.budget(150, 1500))
   disagreements += dis_h
   names = ['integrator', 'cone', 'fluid', 'wind', 'impratio', 'bias', 'gain', 'trn', 'solmix', 'priority',
@@ -799,7 +828,7 @@ def correspond(ctx):
                  first_failing_check={(names[int(k)] if k != '-' else 'none'): v for k, v in branches.items()},
                  accepted_link_types=dict(sorted(link_types.items(), key=lambda kv: -kv[1])[:12]),
                  rejected_by_mujoco_compiler=sorted(set(mj_rejected)), n_rejected_by_mujoco_compiler=len(mj_rejected),
-                 helper_cases=n_h, documents=len(cases), init_executed_concretely=n_exec,
+                 helper_cases=n_h, documents=len(cases), known_findings_reproduced=known_hit, init_executed_concretely=n_exec,
                  init_observed_by='jax.eval_shape of the real pipeline.init (python-level raises); first accepted clean documents also jitted and run', wall_correspond_s=round(time.time() - t0, 1)))
 
 
@@ -817,15 +846,9 @@ def spec_only(label, xml):
       return dict(key='clean-rejected-at-load', what=f'clean document rejected by loads: {real["error"]}', xml=xml,
                   expect='accepted')
     return None
-  for p in PIPES:
-    rv = real['init'][p]
-    if f is not None and rv == 'ok':
-      return dict(key=f'unsupported-accepted:{p}:{f}' + (f':{label["variant"]}' if f == 'cylinder' else ''),
-                  what=f'{p}.init accepts a model with unsupported feature {f}/{label.get("variant")}@{label.get("elem")}',
-                  xml=xml, pipeline=p, expect='error', feature=f, variant=label.get('variant'))
-    if f is None and rv != 'ok':
-      return dict(key=f'clean-rejected:{p}', what=f'{p}.init rejects a clean document: {real["errors"][p]}',
-                  xml=xml, pipeline=p, expect='accepted')
+  v = spec_verdict(label, xml, real)
+  if v:
+    return v[0]
   if f is None:
     bad = spec_structure(real['mj'], structure_of(real['sys']))
     if bad:
@@ -838,11 +861,6 @@ def search(ctx, broken, corr):
   rng = np.random.default_rng(ctx.seed + 1000003)
   deadline = time.time() + ctx.budget(55, 580)
   found, keys = [], set()
-  # first the documents on which the correspondence disagreed
-  for d in corr.get('disagreements', []):
-    if 'xml' in d and time.time() < deadline:
-      for label in (dict(feature=None), ):
-        pass
   b = 0
   while time.time() < deadline and len(found) < 3:
     doc = gen_doc(rng, want=FEATURES if b % 2 else ())
